@@ -41,13 +41,13 @@ func rulesC01(c *Ctx, r *Report) {
 		okArg := len(hdr.args) == 1 && recvFieldName(w, s.expr(hdr.args[0])) == "Name"
 		unconditional := true
 		instrs(w, func(in ssa.Instruction) {
-			if rt, ok := in.(*ssa.Return); ok && !hdr.call.Block().Dominates(rt.Block()) {
+			if rt, ok := in.(*ssa.Return); ok && !hdr.site.Block().Dominates(rt.Block()) {
 				unconditional = false
 			}
 		})
 		first := true
 		for _, fc := range calls {
-			if fc != hdr && !hdr.call.Block().Dominates(fc.call.Block()) {
+			if fc != hdr && !hdr.site.Block().Dominates(fc.site.Block()) {
 				first = false
 			}
 		}
